@@ -567,6 +567,11 @@ package fit
 //@ pred w3(d *decoder, dsize int, padding int, k int, j int, pad byte) := (k < dsize ==> d.tmp[k+padding] == wb(d, dsize, k)) && (k < j ==> d.tmp[k] == pad)
 
 //@ func (d *decoder) parseDataFields(dm *defmsg, knownMsg bool, msgv reflect.Value) (r reflect.Value, err error)
+//@   slow wire 90
+//@   slow wire1 90
+//@   slow wire2 90
+//@   slow wire3 90
+//@   slow wire4 90
 //@@ C02: the fixed 4-byte kinds (time, coordinates) are decoded from the value their wire bytes denote
 //@   callsite parseTimeStamp [size] {C02} 1 <= dsize && dsize <= 4
 //@   callsite parseTimeStamp [wire1] {C02} dsize == 1 ==> tmpU32(d, dm) == wireVal(d, dm, 1, dfield.btype.Signed())
@@ -635,6 +640,9 @@ package fit
 //@   ensures [content] {C02 C04 C12 C13} inv_content(d)
 //@   requires [header] {C13} d.bytes.n >= 1 && recordHeader == lastByte(d) && compressed == (recordHeader&0x80 == 0x80)
 //@   requires [latest] {C13} defs_latest(d)
+//@@ C02: every record is decoded into a message of its own, created all-invalid for this record (fields that the
+//@@ record does not carry therefore hold their invalid values: constructors checked by the C15 table obligations)
+//@   ensures [fresh-msg] {C02} err == nil && rvvalid(r) ==> fresh(r)
 //@   ensures [compressed-state] {C12} compressed && old(d.timestamp) != 0 && old(d.defmsgs[slotOf(recordHeader, compressed)]) != nil && no253(old(d.defmsgs[slotOf(recordHeader, compressed)])) ==>
 //@  |   d.timestamp == advance(old(d.timestamp), old(d.lastTimeOffset), recordHeader) && d.lastTimeOffset == int32(recordHeader&0x1F)
 //@   ensures [compressed-noref] {C12} compressed && old(d.timestamp) == 0 && old(d.defmsgs[slotOf(recordHeader, compressed)]) != nil && no253(old(d.defmsgs[slotOf(recordHeader, compressed)])) ==>
